@@ -50,7 +50,8 @@ fn strategy(tier: Tier) -> BoxedStrategy<Case> {
             garbage_variant,
             edits,
             delete_v0,
-            backup_opts,
+            // mostly the same blocking as before, so that the revenants hash to the old blocks
+            backup_opts: if backup_opts.hunk % 4 != 0 { Opts { hunk: backup_opts.hunk, ..opts } } else { backup_opts },
             random,
         })
         .boxed()
@@ -144,7 +145,7 @@ fn run(case: &Case, cx: &mut Cx) -> CaseResult {
     let kept: Vec<u32> = pre.bands.keys().copied().filter(|b| !delete_ids.contains(b)).collect();
     let referenced = pre.referenced_hashes(kept.iter().copied());
     let garbage: Vec<&String> = pre.blocks.keys().filter(|h| !referenced.contains(*h)).collect();
-    let hazard = !garbage.is_empty();
+    let mut hazard = false;
 
     // solo traces, to place the switch points
     let (g_trace, b_trace) = {
@@ -157,10 +158,26 @@ fn run(case: &Case, cx: &mut Cx) -> CaseResult {
         let ctl = crate::hooks::Ctl::new(&w.arch, crate::hooks::Plan::None);
         let hook: ops::Hook = Some(ctl.clone() as std::sync::Arc<dyn conserve::transport::verif::Interceptor>);
         let _ = ops::backup(&w.arch, &hook, &w.src, case.backup_opts, &[]);
+        // does the new version reuse a block the collector counts as garbage?
+        let solo = format::scan(&w.arch);
+        if let Some(newest) = solo.bands.keys().copied().max() {
+            let used = solo.referenced_hashes(std::iter::once(newest));
+            hazard = garbage.iter().any(|g| used.contains(*g));
+        }
         (g, ctl.log())
     };
     let (g_all, g_crit) = race::key_points(&g_trace);
     let (b_all, b_crit) = race::key_points(&b_trace);
+    if cx.replay {
+        for (name, t) in [("gc", &g_trace), ("backup", &b_trace)] {
+            eprintln!("solo trace of {name}:");
+            for l in t.iter() {
+                eprintln!("  {:3} {:?} {} ok={}", l.index, l.key.verb, l.key.path, l.ok);
+            }
+        }
+        eprintln!("gc points all={g_all:?} critical={g_crit:?}\nbackup points all={b_all:?} critical={b_crit:?}");
+        eprintln!("garbage blocks: {}", garbage.len());
+    }
     let cap = cx.tier.pick(10usize, 60usize);
     let all = [scen::thin(&g_all, cap), scen::thin(&b_all, cap)];
     let crit = [scen::thin(&g_crit, cx.tier.pick(6, 10)), scen::thin(&b_crit, cx.tier.pick(6, 10))];
